@@ -402,7 +402,6 @@ inline bool lifecycle_F(Rng& r, uint64_t idx)
                              if (issue_std(tmp, lg, 0, quill::LogLevel::Info, tid, seq, static_cast<uint32_t>(tr.range(0, 50))).res == 1) inc.issued.emplace_back(tid, seq);
                              ++seq;
                              if (tr.chance(1, 20)) (void)Fe::get_logger(shared_name);
-                             if (tr.chance(1, 30)) (void)Fe::get_all_loggers();
                            }
                            Fe::remove_logger_blocking(lg, tr.chance(1, 2) ? 100 : 0);
                            if (Fe::get_logger(inc.name) != nullptr)
